@@ -84,6 +84,23 @@ def templates(cfg):
     T("grouping_survives_collect_add", grouping_survives_collect_add)
     T("grouping_survives_alias", lambda p, t: t >> p.group_by(t.g) >> p.alias("z") >> p.mutate(y=p.C.b.sum()) >> p.ungroup())
     T("grouping_survives_alias_summarize", lambda p, t: t >> p.group_by(t.g) >> p.alias("z") >> p.summarize(s=p.C.b.sum()))
+    # the ORDER of several grouping columns (not the table's column order) through re-rooting: summarize lists the keys in
+    # group_by order, and the metadata must say the same (round 5, C16-F)
+    T("grouping_order_survives_alias_summarize", lambda p, t: t >> p.group_by(t.g, t.a) >> p.alias("z") >> p.summarize(s=p.C.b.sum()))
+    T("grouping_order_survives_alias_twice_drop", lambda p, t: t >> p.group_by(t.g, t.b) >> p.alias("y") >> p.alias("z") >> p.summarize(s=p.C.a.max()) >> p.drop(p.C.s))
+    T("grouping_order_survives_alias_window", lambda p, t: t >> p.group_by(t.g, t.a) >> p.alias("z") >> p.mutate(y=p.C.b.sum()) >> p.summarize(m=p.C.y.max()))
+
+    def grouping_order_survives_transfer(p, t):
+        d = t >> p.mutate(d=t.a + 1) >> p.group_by(t.g, t.a)
+        n = d >> p.alias("m")
+        return p.transfer_col_references(n, d) >> p.summarize(s=t.b.sum())
+
+    T("grouping_order_survives_transfer", grouping_order_survives_transfer)
+
+    def grouping_order_survives_collect(p, t):
+        return p.collect(t >> p.group_by(t.g, t.a)) >> p.summarize(s=t.b.sum())
+
+    T("grouping_order_survives_collect", grouping_order_survives_collect)
 
     def transfer_reordered(p, t):
         d = t >> p.mutate(d=t.a + t.b)
